@@ -119,6 +119,23 @@ pub fn decode_event(id: u64) -> Value {
            "reser_ok": reser_ok, "id2": quads(id2)})
 }
 
+/// "every ID returned by any API call is in canonical form": hierarchy and list calls fed with a decodable but
+/// non-canonical ID (stray bits below the marker, or next to the resolution-0/1 markers)
+pub fn canonout_event(f: &str, id: u64, r: i32, dflt: bool) -> Value {
+    let f2 = f.to_string();
+    let res = catch(move || -> Result<Vec<u64>, String> {
+        Ok(match f2.as_str() {
+            "cell_to_parent" => vec![a5::cell_to_parent(id, if dflt { None } else { Some(r) })?],
+            "cell_to_children" => a5::cell_to_children(id, if dflt { None } else { Some(r) })?,
+            "uncompact" => a5::uncompact(&[id], r)?,
+            "compact" => a5::compact(&[id])?,
+            _ => vec![],
+        })
+    });
+    let (outcome, outs) = match res { Ok(Ok(v)) => ("ok", v), Ok(Err(_)) => ("err", vec![]), Err(_) => ("panic", vec![]) };
+    json!({"op": "canonout", "fn": f, "id": quads(id), "r": r, "dflt": dflt, "outcome": outcome, "outs": quads_list(&outs[..outs.len().min(64)]), "n": outs.len()})
+}
+
 pub fn hexfmt_event(v: u64) -> Value {
     let s = a5::u64_to_hex(v);
     let back = catch(|| a5::hex_to_u64(&s));
@@ -247,6 +264,28 @@ pub fn gen_c05(tier: &str, seed: u64, out: &str, mc_replay: Option<&str>) -> Val
             }
         }
     }
+    // API calls on aliases: whatever is returned must be canonical
+    let mut n_canon = 0u64;
+    for res in 0..=29 {
+        for k in 0..(if tier == "thorough" { 40 } else { 6 }) {
+            let c = random_cell(&mut rng, res);
+            // bits that the resolution scan never looks at: even positions below the marker; bit 57 above the res-1 marker
+            let marker: u64 = if res == 0 { 57 } else if res == 1 { 56 } else { 1 + 2 * (29 - res as u64) };
+            let mut stray = 0u64;
+            for b in (0..marker).step_by(2) { if rng.chance(0.3) { stray |= 1 << b; } }
+            if res == 1 && k % 2 == 0 { stray |= 1 << 57; }
+            if stray == 0 { stray = 1; }
+            let x = c | stray;
+            if a5::get_resolution(x) != res { continue; }
+            for (f, r, dflt) in [("cell_to_parent", res, false), ("cell_to_parent", res - 1, false), ("cell_to_parent", 0, true),
+                                 ("cell_to_children", res, false), ("cell_to_children", (res + 1).min(29), false), ("cell_to_children", 0, true),
+                                 ("uncompact", res, false), ("uncompact", (res + 1).min(29), false), ("compact", 0, false)] {
+                t.emit(canonout_event(f, x, r, dflt));
+                n_canon += 1;
+            }
+            t.cut();
+        }
+    }
     // hex: boundaries, single bits, every recorded cell pattern, random
     let mut vals: Vec<u64> = vec![0, 1, 9, 10, 15, 16, 255, 256, u64::MAX, u64::MAX - 1, 1 << 63, (1 << 63) - 1,
                                   0x0123456789abcdef, 0xfedcba9876543210, 0xfc00000000000000, 0x0400000000000000];
@@ -316,7 +355,7 @@ pub fn gen_c05(tier: &str, seed: u64, out: &str, mc_replay: Option<&str>) -> Val
         t.cut();
     }
     t.finish();
-    json!({"files": t.files, "events": t.events, "codec": n_codec, "decode": n_decode, "hexfmt": n_hex, "hexparse": n_parse,
+    json!({"files": t.files, "events": t.events, "codec": n_codec, "decode": n_decode, "alias_calls": n_canon, "hexfmt": n_hex, "hexparse": n_parse,
            "mc_replayed": n_replayed, "exhaustive_to_res": exhaustive_to,
            "samples": [codec_event(&A5Cell{origin_id: 7, segment: 3, s: 0x2d, resolution: 4}), hexparse_event("10000000000000000")]})
 }
